@@ -626,6 +626,7 @@ fn exec_inner(w: &World, label: u32, op: &Op) -> Option<Ret> {
                 }
             }
             let guard = Disarm;
+            crate::engine::engine().io_point();
             let res = m.write();
             std::mem::forget(guard);
             if res.is_err() {
